@@ -306,6 +306,16 @@ class Py:
             s1, s2 = io.StringIO(), io.StringIO()
             cf.dump_xyz(s1)
             cf.dump_mol2(s2)
+            # the xyz text really is this conformer: n_atoms atom lines carrying row i (to the 1e-5 the format keeps)
+            xl = s1.getvalue().splitlines()
+            want = np.array(cf.coords, dtype=float)
+            if int(xl[0].split()[0]) != cf.n_atoms or len(xl) < 2 + cf.n_atoms:
+                raise ValueError("xyz block does not have n_atoms atom lines")
+            for a in range(cf.n_atoms):
+                got = [float(x) for x in xl[2 + a].split()[1:4]]
+                for g, w_ in zip(got, want[a]):
+                    if not ((g != g and w_ != w_) or abs(g - w_) <= 1e-5 * max(1.0, abs(w_))):
+                        raise ValueError("xyz block shows other coordinates than the conformer")
             if cf.n_atoms != np.shape(cf.coords)[0] or np.shape(cf.atomic_charges) != (cf.n_atoms,):
                 raise ValueError("conformer is not a full molecule")
             if self.use_lib:
